@@ -32,8 +32,8 @@ PROPS.update({
             "design": "6/C13", "projection": core.framing_projection(with_dump=True), "needs_memcrsd": True},
     "C18": {"suites": {"quick": STREAM("C18", 120, 1500)["quick"] + [("server", {"count": 16})], "thorough": STREAM("C18", 120, 1500)["thorough"] + [("server", {"count": 300})]},
             "design": "6/C18", "projection": core.framing_projection(with_dump=True)},
-    "C10": {"suites": {"quick": STREAM("C10", 120, 1500)["quick"] + [("grid", {"count": 3000}), ("seq", {"profile": "C05", "count": 500}), ("seq", {"profile": "ALL", "count": 500})],
-                       "thorough": STREAM("C10", 120, 1500)["thorough"] + [("grid", {"count": 60000}), ("seq", {"profile": "C05", "count": 20000}), ("seq", {"profile": "ALL", "count": 20000})]},
+    "C10": {"suites": {"quick": STREAM("C10", 120, 1500)["quick"] + [("grid", {"count": 3000}), ("seq", {"profile": "C05", "count": 500}), ("seq", {"profile": "ALL", "count": 500}), ("policy", {"profile": "C14", "count": 150})],
+                       "thorough": STREAM("C10", 120, 1500)["thorough"] + [("grid", {"count": 60000}), ("seq", {"profile": "C05", "count": 20000}), ("seq", {"profile": "ALL", "count": 20000}), ("policy", {"profile": "C14", "count": 5000})]},
             "design": "6/C10", "projection": core.framing_projection()},
 })
 
@@ -71,7 +71,7 @@ PROPS.update({
 })
 
 PROPS.update({
-    "C20": {"suites": {"quick": [("config", {"tier": "quick"}), ("seq", {"profile": "C20", "count": 800})], "thorough": [("config", {"tier": "thorough"}), ("seq", {"profile": "C20", "count": 40000})]}, "design": "6/C20", "needs_memcrsd": True},
+    "C20": {"suites": {"quick": [("config", {"tier": "quick"}), ("seq", {"profile": "C20", "count": 800}), ("sched", {"profile": "C03deep", "count": 40, "per_case": 40})], "thorough": [("config", {"tier": "thorough"}), ("seq", {"profile": "C20", "count": 40000}), ("sched", {"profile": "C03deep", "count": 1000, "per_case": 300})]}, "design": "6/C20", "needs_memcrsd": True},
 })
 
 RULE_CONFIG = ("config: the real memcrsd binary (built from /repo's working tree) is started as a child process under {current-thread, multi-thread} x threads {1,2,8} x "
@@ -241,8 +241,8 @@ def run_check(prop, tier, seed, replay):
             payload.update(program_payload(run, v["start"], v["end"]))
             problems.append(("counterexample", v["msg"], payload, True))
         stream_suite = name.startswith("codec") or name.startswith("conn") or name.startswith("grid")
-        proj_suite = stream_suite or name.startswith("policy")
-        for (a, b, i) in ([] if cfg.get("only_hangs") else run.divergences(cfg.get("projection") if (proj_suite and cfg.get("projection")) else None)):
+        proj = core.policy_projection() if name.startswith("policy") else (cfg.get("projection") if stream_suite else None)
+        for (a, b, i) in ([] if cfg.get("only_hangs") else run.divergences(proj)):
             if name.startswith("corpus") or name == "replay" or name.startswith("policy") or name.startswith("server") or name.startswith("sched") or name.startswith("stress") or name.startswith("config"):
                 own, why = {prop}, f"witness replay differs at '{run.ops[i][:40]}'"
             elif stream_suite:
